@@ -437,6 +437,13 @@ func TestC16Schedule(t *testing.T) {
 
 		nb := rapid.IntRange(1, scale(14, 30)).Draw(t, "nBlocks")
 		for i := 0; i < nb && !r.Halted; i++ {
+			if i > 0 && sim.U(t, "restart", 4) == 0 {
+				// cold caches: a fund added to a due block that already holds funds must join the stored
+				// record, not replace it
+				n.Restart()
+				r.Steps = append(r.Steps, "RESTART")
+				sim.S.Label("C16/restarts")
+			}
 			if !r.Block(t) {
 				violation(t, "panic", r, "%s", r.PanicReport())
 			}
